@@ -13,12 +13,7 @@ LEVEL = {"C13": "other"}
 
 
 def viols_of(res):
-    out = []
-    txt = res["output"].replace("\n", " ")
-    import re
-    for m in re.finditer(r'<<\s*"VIOL",\s*"([^"]+)",\s*(\d+),(.*?)>>\s*(?=<<\s*"(?:VIOL|ACCEPTED)")', txt):
-        out.append((m.group(1), int(m.group(2)), " ".join(m.group(3).split())[:400]))
-    return out
+    return C.parse_viols(res["output"] if isinstance(res, dict) else res)
 
 
 def run_c13(ctx):
